@@ -156,6 +156,13 @@ PathOf(ch, ups, cores, downs) ==
      exp |-> MinOf({pr[j].exp : j \in 1..n}),
      w |-> Len(intfs) \div 2]
 
+\* A combination exists as a SCION path only if it fits the path header: at most hopLimit hop fields
+\* in total (64) and at most segLimit per segment (63: the SegLen fields have 6 bits).
+Representable(q, hopLimit, segLimit) ==
+    Len(q.hops) <= hopLimit /\ \A j \in 1..3 : q.seglen[j] <= segLimit
+MaxPathHops == 64
+MaxSegHops == 63
+
 \* number of interfaces of the busiest AS on an interface list: an AS that is passed through once
 \* contributes 2; "passes no AS more than twice" is "no AS owns more than two of the interfaces"
 MaxVisits(intfs) ==
